@@ -703,8 +703,30 @@ func main() {
 			break
 		}
 	}
-	for _, dom := range []string{"example.org", "other.com", "frps.example.org.evil.com.x", "notfrps.example.orgx"} {
+	// the server's own spelling of its subdomain host does not matter either
+	for _, shost := range []string{"Frps.Example.Org", "FRPS.EXAMPLE.ORG", "frps.example.ORG"} {
+		sc := &v1.ServerConfig{}
+		sc.VhostHTTPPort, sc.VhostHTTPSPort, sc.TCPMuxHTTPConnectPort = 80, 443, 1337
+		sc.SubDomainHost = shost
+		sc.Complete()
+		for _, dom := range []string{"a.frps.example.org", "A.FRPS.EXAMPLE.ORG", "a.Frps.Example.Org", "x.y.frps.example.org"} {
+			c.Count("val:case2:" + shost + ":" + dom)
+			for _, typ := range []string{"http", "https", "tcpmux"} {
+				m := &msg.NewProxy{ProxyName: "x", ProxyType: typ, CustomDomains: []string{dom}, Multiplexer: "httpconnect"}
+				if _, err := config.NewProxyConfigurerFromMsg(m, sc); err == nil {
+					c.Violate("validation", "val:case2:"+typ, fmt.Sprintf("%s proxy with custom domain %q accepted although it lies inside the server's subdomain host %q", typ, dom, shost), dom)
+				}
+			}
+		}
+	}
+	for _, dom := range []string{"example.org", "other.com", "org", "a.example.com"} {
 		c.Count("val:outside:" + dom)
+		for _, typ := range []string{"http", "https", "tcpmux"} {
+			m := &msg.NewProxy{ProxyName: "x", ProxyType: typ, CustomDomains: []string{dom}, Multiplexer: "httpconnect"}
+			if _, err := config.NewProxyConfigurerFromMsg(m, serverCfg); err != nil {
+				c.Violate("validation", "val:outside:"+typ, fmt.Sprintf("%s proxy with custom domain %q refused although it lies outside the server's subdomain host: %v", typ, dom, err), dom)
+			}
+		}
 	}
 	for _, bad := range []doc{{"name": "x", "type": "tcp", "localPort": 1, "transport": doc{"bandwidthLimitMode": "sideways"}}, {"name": "x", "type": "tcp", "localPort": 1, "transport": doc{"proxyProtocolVersion": "v3"}},
 		{"name": "x", "type": "tcp", "localPort": 1, "healthCheck": doc{"type": "icmp"}}, {"name": "x", "type": "tcpmux", "localPort": 1, "customDomains": []any{"a.com"}, "multiplexer": "socks"}} {
